@@ -54,6 +54,11 @@ func (m *KeepAlive[C]) OnInactive(cc C) {
 	m.cancelPing.Store(unsafe.Pointer(&cancel))
 }
 
+// OnActive resets the number of unanswered pings: any received message proves that the peer is alive.
+func (m *KeepAlive[C]) OnActive() {
+	m.resetFails()
+}
+
 func (m *KeepAlive[C]) incrementFails() uint32 {
 	return m.numFails.Add(1)
 }
